@@ -350,6 +350,10 @@ func (p *Playlist) render(k int) string {
 		td = 1
 	}
 	fmt.Fprintf(&b, "#EXT-X-TARGETDURATION:%d\n", td)
+	if !p.CanBlockReload && p.CanSkipUntilNS > 0 {
+		// delta updates offered by a server that does not do blocking reload
+		b.WriteString("#EXT-X-SERVER-CONTROL:CAN-SKIP-UNTIL=" + fmtDur(p.CanSkipUntilNS) + "\n")
+	}
 	if p.CanBlockReload {
 		b.WriteString("#EXT-X-SERVER-CONTROL:CAN-BLOCK-RELOAD=YES")
 		if p.CanSkipUntilNS > 0 {
